@@ -92,4 +92,18 @@ example : prS exEnv01 "_".toList false exSecSchema exSecElem ≠ exSecElem := ex
 example : prS exEnv01 "_".toList false exSecSchema (prS exEnv01 "_".toList false exSecSchema exSecElem)
     = prS exEnv01 "_".toList false exSecSchema exSecElem := exSec_trip2_identity
 
+/-! ### the TREE may still change on the second trip (the flat output does not) -/
+
+/-- SparseDict{l?: List(prune) of scalars} holding {l: ['']} -/
+def exTCSchema : Schema :=
+  .dict none false .sparse [.list (some "l".toList) true true 1024 (.leaf none false 0)]
+def exTCElem : Elem := .dict [("l".toList, .list [.leaf []])]
+
+/-- trip 1 prunes the list but keeps the member (its key `l_0` was seen), trip 2 drops the member
+    that no longer emits anything: `{l: ['']} -> {l: []} -> {}`; both rebuilt trees flatten to `[]` -/
+theorem sparse_tree_changes_second :
+    prS exEnv01 "_".toList false exTCSchema exTCElem = .dict [("l".toList, .list [])] ∧
+    prS exEnv01 "_".toList false exTCSchema (.dict [("l".toList, .list [])]) = .dict [] := by
+  constructor <;> (simp only [exTCSchema, exTCElem]; prS_eval)
+
 end Flatland.Flat.Proofs
